@@ -1,6 +1,121 @@
-import DesperModel.Disp
+import DesperProofs.Lemmas.DispTop
+/-
+  C03 — An enabled dispatcher delivers each event once to each listener.
+
+  Model: DesperModel/Disp.lean (mirrors desper/events.py).  `run U fuel (init held hints) ops` is
+  the state after the top-level operations `ops` of a scenario in universe `U` (class mappings and
+  scripted, possibly re-entrant, callback reactions); `evl s ev` is the listener set of `ev`,
+  `hl s r` the pairs recorded for handler `r`.
+-/
 open Desper Desper.Disp
 
-/-- `event_handler` without arguments leaves the class untouched (events.py:164-165). -/
+/-- `event_handler()` without arguments leaves the class untouched (events.py:164-165). -/
 theorem C03_decorator_noop (inh : Option Mapping) : decorate inh [] [] = inh := by
   simp [decorate]
+
+/-- Decorating a class never alters the mapping of a class created before it (its bases):
+the table of `__events__` is only ever extended (events.py:169-171 builds a new dict with `|`). -/
+theorem C03_bases_unchanged (cs : List ClassDecl) (c : ClassDecl) :
+    classTable (cs ++ [c]) =
+      classTable cs ++ [decorate (inheritedOf (classTable cs) c.bases) c.names c.kw] := by
+  simp [classTable, List.foldl_append]
+
+/-- The mapping of a decorated class is the inherited one, extended and overridden by the positional
+names (event = method) and then by the keyword mappings: its keys stay unique. -/
+theorem C03_decorator_keys_unique (inh : Option Mapping) (names : List String)
+    (kw : List (String × String)) (h : ∀ m, inh = some m → (m.map (·.1)).Nodup) :
+    ∀ m, decorate inh names kw = some m → (m.map (·.1)).Nodup :=
+  decorate_nodup inh names kw h
+
+/-- A keyword mapping wins over everything for its event. -/
+theorem C03_decorator_kw_wins (inh : Option Mapping) (names : List String)
+    (kw : List (String × String)) (e m : String) :
+    ∃ mp, decorate inh names (kw ++ [(e, m)]) = some mp ∧ Dict.get? mp e = some m := by
+  have hne : (names.isEmpty && (kw ++ [(e, m)]).isEmpty) = false := by simp
+  simp only [decorate, hne, Bool.false_eq_true, if_false, List.foldl_append, List.foldl_cons,
+    List.foldl_nil]
+  exact ⟨_, rfl, by simp [Dict.get?_set]⟩
+
+/-- Every universe a scenario can describe is well formed (so the theorems below are not vacuous). -/
+theorem C03_scenario_universe_wf (p : Parsed) : p.universe.WF := parsed_universe_wf p
+
+/-- `_events` and `_handlers` stay inverse tables under every sequence of operations, including
+operations issued from inside callbacks (events.py:50-95). -/
+theorem C03_inverse_tables (U : Universe) (hU : U.WF) (held hints : List Obj) (fuel : Nat)
+    (ops : List Op) (r : Obj) (ev m : String) :
+    (r, m) ∈ evl (run U fuel (init held hints) ops) ev ↔
+      (ev, m) ∈ hl (run U fuel (init held hints) ops) r :=
+  (top_state hU held hints fuel ops).1.inverse r ev m
+
+/-- `remove_handler` never fails (the `set.remove` of events.py:86 always finds its entry). -/
+theorem C03_remove_total (U : Universe) (hU : U.WF) (held hints : List Obj) (fuel : Nat)
+    (ops : List Op) (o : Obj) :
+    (removeWeak (run U fuel (init held hints) ops) o).2 = .ok :=
+  (inv_removeWeak hU (top_state hU held hints fuel ops).1.toTInv o).1
+
+/-- Delivery: an enabled dispatcher whose listeners' callbacks do nothing else calls, for
+`dispatch ev args`, exactly once and with exactly `args` the mapped method of each handler that is
+registered for `ev` (and alive), and calls nothing else: the log grows by one `cb` entry per
+member of the listener set, no member twice, nothing outside the set. -/
+theorem C03_delivery_once (U : Universe) (hU : U.WF) (hp : Passive U) (held hints : List Obj)
+    (fuel fuel' : Nat) (ops : List Op) (ev args : String)
+    (hen : (run U fuel (init held hints) ops).enabled = true)
+    (hok : (execOp U fuel' (run U fuel (init held hints) ops) (.dispatch ev args)).2 = .ok) :
+    ∃ called : List (Obj × String),
+      (execOp U fuel' (run U fuel (init held hints) ops) (.dispatch ev args)).1.log =
+        (called.map (cbEntry args)).reverse ++ (run U fuel (init held hints) ops).log ∧
+      called.Nodup ∧
+      (∀ p, p ∈ called ↔ p ∈ evl (run U fuel (init held hints) ops) ev ∧
+                          (run U fuel (init held hints) ops).alive p.1 = true) := by
+  obtain ⟨_, _, hdy, _, _⟩ := top_state hU held hints fuel ops
+  obtain ⟨called, h1, ⟨h2, h3⟩, _⟩ := dispatch_passive hp fuel' _ ev args hdy hen hok
+  exact ⟨called, h1, h2, h3⟩
+
+/-- Registering a handler twice does not duplicate anything: the listener sets have the same
+members (and deliveries go to distinct members, `C03_delivery_once`). -/
+theorem C03_idempotent_add (s : St) (o : Obj) (m : Mapping) (ev : String) (x : Obj × String) :
+    x ∈ evl (addHandler (addHandler s o m) o m) ev ↔ x ∈ evl (addHandler s o m) ev := by
+  rw [(addHandler_spec _ o m).1, (addHandler_spec s o m).1]
+  constructor
+  · rintro ((h | h) | h)
+    · exact .inl h
+    · exact .inr h
+    · exact .inr h
+  · exact fun h => .inl h
+
+/-- A removed handler is in no listener set any more, hence (by `C03_delivery_once`) receives
+nothing from later dispatches until it is added again. -/
+theorem C03_removed_silent (U : Universe) (hU : U.WF) (held hints : List Obj) (fuel : Nat)
+    (ops : List Op) (o : Obj) (ev : String) (x : Obj × String)
+    (hx : x ∈ evl (removeWeak (run U fuel (init held hints) ops) o).1 ev) : x.1 ≠ o :=
+  ((inv_removeWeak hU (top_state hU held hints fuel ops).1.toTInv o).2.1 ev x |>.mp hx).2
+
+/-- Events nobody listens to are ignored silently: state and log unchanged, no error. -/
+theorem C03_unknown_event (U : Universe) (fuel : Nat) (s : St) (ev args : String)
+    (h : Dict.get? s.events ev = none) :
+    execOp U (fuel + 1) s (.dispatch ev args) = (s, .ok) := by
+  simp [execOp, h]
+
+/-- Callbacks invoked by the model are always invoked on a receiver (never `None`), whatever the
+callbacks themselves do (re-entrant universes included). -/
+theorem C03_receiver_present (U : Universe) (hU : U.WF) (held hints : List Obj) (fuel : Nat)
+    (ops : List Op) (m a : String) :
+    Entry.cb none m a ∉ (run U fuel (init held hints) ops).log :=
+  (top_state hU held hints fuel ops).2.2.2.2 m a
+
+/-! non-vacuity: a concrete universe with two listeners; the hypotheses of `C03_delivery_once`
+hold and both listeners are called -/
+private def exU : Universe :=
+  { mapping := fun o => if o < 2 then some [("e0", "m0")] else none, reaction := fun _ _ _ => [] }
+
+example : exU.WF ∧ Passive exU ∧
+    (run exU 100 (init [0, 1] [1, 0]) [.add 0, .add 1]).enabled = true ∧
+    (execOp exU 100 (run exU 100 (init [0, 1] [1, 0]) [.add 0, .add 1]) (.dispatch "e0" "7")).2 = .ok ∧
+    ((execOp exU 100 (run exU 100 (init [0, 1] [1, 0]) [.add 0, .add 1]) (.dispatch "e0" "7")).1.log.take 2
+      = [.cb (some 0) "m0" "7", .cb (some 1) "m0" "7"]) := by
+  refine ⟨⟨?_⟩, fun _ _ _ => rfl, by decide, by decide, by decide⟩
+  intro o m h
+  simp only [exU] at h
+  split at h
+  · simp at h; subst h; simp
+  · simp at h
